@@ -246,11 +246,91 @@ pub fn run(ctx: &mut Ctx) {
             break;
         }
     }
+    // ---- the encoder as a caller of the event stream: node times at which it collects samples
+    let m = ctx.n(200_000, 5_000_000) / 40;
+    for i in 0..m {
+        let mut r = ctx.rng_for(3, i);
+        encoder_caller_case(ctx, 3 << 56 | i, &mut r);
+        if ctx.out_of_time() {
+            break;
+        }
+    }
     if ctx.want_sample() {
         let p = Params { start: 1000.0, sd: 500.0, vel: 0.28, td: 35.0, total: 140.0, spans: 3 };
         let evs = collect(&p, &mut buf);
         ctx.sample(J::O(vec![("params".into(), J::s(format!("{p:?}"))), ("events".into(), J::s(format!("{evs:?}")))]));
     }
+}
+
+/// The encoder derives the stream parameters of every slider (osu!/catch) and collects a sample
+/// control point at head, every repeat and tail. Observable end to end: give every node of a
+/// slider its own volume through sample points placed at the node times; after encode -> decode
+/// every node must still have its volume, which requires the collected points to sit at the
+/// reference stream's head / repeat / tail times (to within the 5 ms lookup leniency).
+fn encoder_caller_case(ctx: &mut Ctx, index: u64, r: &mut Rng) {
+    use rosu_map::{section::hit_objects::HitObjectKind, Beatmap};
+    let mode = [0u8, 2][r.below(2)];
+    let spans = 1 + r.below(5);
+    let start = 1000 + r.below(5000);
+    let len = 40 + r.below(300);
+    let beat = [500.0, 333.0, 250.0][r.below(3)];
+    let sv = [-100.0, -50.0, -200.0][r.below(3)];
+    let version = [14, 7][r.below(2)];
+    let head = format!(
+        "osu file format v{version}\n[General]\nMode: {mode}\n[Difficulty]\nSliderMultiplier:{}\nSliderTickRate:{}\n[TimingPoints]\n0,{beat},4,1,0,100,1,0\n0,{sv},4,1,0,100,0,0\n",
+        [1.4, 0.7, 2.0][r.below(3)],
+        [1, 2, 4][r.below(3)]
+    );
+    let obj = format!("[HitObjects]\n100,100,{start},2,0,L|{}:100,{spans},{len}\n", 100 + len);
+    let w = format!("{head}{obj}");
+    ctx.case(index, w.as_bytes(), |ctx| {
+        let Ok(mut m1) = rosu_map::from_str::<Beatmap>(&w) else { return };
+        let Some(HitObjectKind::Slider(s)) = m1.hit_objects.first_mut().map(|h| &mut h.kind) else { return };
+        let dur = s.duration();
+        // reference stream: head, repeats and tail times
+        let evs = events::model(start as f64, dur / spans as f64, s.velocity, 0.0, len as f64, spans as i32);
+        let node_times: Vec<f64> = evs.iter().filter(|e| matches!(e.k, 0 | 2 | 4)).map(|e| e.t).collect();
+        if node_times.len() != spans + 1 {
+            ctx.violation("reference_nodes", format!("reference stream has {} node events for {spans} spans", node_times.len()), index, w.as_bytes());
+            return;
+        }
+        // neighbouring nodes must be further apart than the lookup leniency to be told apart
+        if dur / (spans as f64) < 12.0 {
+            ctx.count("encoder_caller_skipped_short_span");
+            return;
+        }
+        let mut text = head.clone();
+        for (i, t) in node_times.iter().enumerate() {
+            text.push_str(&format!("{t},{sv},4,1,0,{},0,0\n", 10 * (i + 1)));
+        }
+        text.push_str(&obj);
+        let Ok(mut m) = rosu_map::from_str::<Beatmap>(&text) else { return };
+        let volumes = |m: &Beatmap| -> Vec<i32> {
+            match m.hit_objects.first().map(|h| &h.kind) {
+                Some(HitObjectKind::Slider(s)) => s.node_samples.iter().map(|v| v.first().map_or(-1, |x| x.volume)).collect(),
+                _ => vec![],
+            }
+        };
+        let before = volumes(&m);
+        let want: Vec<i32> = (0..=spans).map(|i| 10 * (i as i32 + 1)).collect();
+        if before != want {
+            // the decoder's own node lookup (C15) did not give each node its volume: not this check's business
+            ctx.count("encoder_caller_skipped_decode_lookup");
+            return;
+        }
+        let Ok(enc) = m.encode_to_string() else { return };
+        let Ok(m2) = rosu_map::from_str::<Beatmap>(&enc) else { return };
+        ctx.count("encoder_caller_cases");
+        let after = volumes(&m2);
+        if after != before {
+            ctx.violation(
+                "encoder_node_times",
+                format!("per-node volumes {before:?} became {after:?} after encode -> decode: the encoder did not collect samples at the head / repeat / tail times {node_times:?}"),
+                index,
+                text.as_bytes(),
+            );
+        }
+    });
 }
 
 fn random_params(r: &mut Rng) -> Params {
